@@ -49,10 +49,10 @@ fn probe(c: &mut Cl, wait: Duration) -> bool {
     false
 }
 
-pub const KINDS: &[&str] = &["close", "quit", "quitq", "mid-request", "protocol-error", "oversized", "idle-timeout"];
+pub const KINDS: &[&str] = &["close", "quit", "quitq", "mid-request", "protocol-error", "oversized", "idle-timeout", "idle-inside-first-request", "idle-inside-later-request"];
 
 /// One case: limit L, lifecycles well beyond the limit.
-pub fn run_case(id: &str, limit: u32, rounds: usize, rng: &mut Rng, workers: usize, trace: &mut String, obs: &mut String, kinds_used: &mut HashMap<String, u64>) {
+pub fn run_case(id: &str, limit: u32, rounds: usize, first_kind: usize, rng: &mut Rng, workers: usize, trace: &mut String, obs: &mut String, kinds_used: &mut HashMap<String, u64>) {
     let timeout_secs = 2;
     let server = Server::start(256, None, limit, timeout_secs, workers);
     let _ = writeln!(trace, "CASE {} 256 none", id);
@@ -62,6 +62,7 @@ pub fn run_case(id: &str, limit: u32, rounds: usize, rng: &mut Rng, workers: usi
     let mut active: Vec<usize> = Vec::new(); // the harness' own expectation, only to choose how long to wait
     let mut waiting: Vec<usize> = Vec::new();
     let mut next = 0usize;
+    let mut zombies: Vec<Cl> = Vec::new();
     let mut connect = |conns: &mut HashMap<usize, Cl>, active: &mut Vec<usize>, waiting: &mut Vec<usize>, next: &mut usize, trace: &mut String| {
         let c = *next;
         *next += 1;
@@ -89,7 +90,7 @@ pub fn run_case(id: &str, limit: u32, rounds: usize, rng: &mut Rng, workers: usi
             surprised.set(true);
         }
     };
-    for _ in 0..rounds {
+    for round in 0..rounds {
         if surprised.get() {
             break;
         }
@@ -104,8 +105,8 @@ pub fn run_case(id: &str, limit: u32, rounds: usize, rng: &mut Rng, workers: usi
         }
         // end one served connection in a random way
         let victim = active[rng.below(active.len() as u64) as usize];
-        // the idle timeout costs seconds of wall time: about one lifecycle in twelve
-        let kind = if rng.chance(1, 12) { 6 } else { rng.below(6) as usize };
+        // every way of ending is visited in turn (the idle timeouts cost seconds of wall time each)
+        let kind = (first_kind + round) % KINDS.len();
         *kinds_used.entry(KINDS[kind].to_string()).or_insert(0) += 1;
         {
             let cl = conns.get_mut(&victim).unwrap();
@@ -144,8 +145,18 @@ pub fn run_case(id: &str, limit: u32, rounds: usize, rng: &mut Rng, workers: usi
                     std::thread::sleep(Duration::from_millis(5));
                     let _ = cl.sock.shutdown(Shutdown::Both);
                 }
-                _ => {
-                    // idle until the server's receive timeout; keep the others busy meanwhile
+                k => {
+                    // idle until the server's receive timeout; keep the others busy meanwhile.
+                    // Variants: silent from the start of a request, inside the first request of
+                    // a write, inside a later request of a write that began with complete ones.
+                    let noop = Req::new(op::NOOP).opaque(0x1d1e).bytes();
+                    if k == 7 {
+                        let _ = cl.sock.write_all(&noop[..10]);
+                    } else if k == 8 {
+                        let mut b = noop.clone();
+                        b.extend_from_slice(&noop[..10]);
+                        let _ = cl.sock.write_all(&b);
+                    }
                     let t0 = Instant::now();
                     while t0.elapsed() < Duration::from_millis(timeout_secs as u64 * 1000 + 1200) {
                         std::thread::sleep(Duration::from_millis(400));
@@ -159,6 +170,13 @@ pub fn run_case(id: &str, limit: u32, rounds: usize, rng: &mut Rng, workers: usi
             }
         }
         let _ = writeln!(trace, "END {} {}", victim, kind);
+        if kind >= 6 {
+            // the server must have let go of it on its own: keep our end open, so that
+            // closing it cannot be what frees the slot
+            if let Some(cl) = conns.remove(&victim) {
+                zombies.push(cl);
+            }
+        }
         conns.remove(&victim);
         active.retain(|c| *c != victim);
         if !waiting.is_empty() {
@@ -188,6 +206,7 @@ pub fn run_case(id: &str, limit: u32, rounds: usize, rng: &mut Rng, workers: usi
         do_probe(&mut conns, c, false, trace, obs);
     }
     drop(conns);
+    drop(zombies);
     std::thread::sleep(Duration::from_millis(20));
     drop(server);
 }
